@@ -34,6 +34,9 @@ OPS = [
     # the fault scripts give it the closing server).  PooledClient has no cache_memlimit, HashClient neither that nor shutdown: AttributeError there.
     {"op": "stats"}, {"op": "stats", "args": ("items",)}, {"op": "stats", "args": ("cachedump", "1", "1")},
     {"op": "cache_memlimit", "m": 64}, {"op": "shutdown", "g": False}, {"op": "shutdown", "g": True},
+    # raw_command: one request line, the reply read up to the caller's end token - here the line end, which every reply the adversary substitutes
+    # still has (with a longer token a substituted error line would not contain it: the caller's choice, C19's finding).  HashClient has no raw_command.
+    {"op": "raw", "cmd": b"version", "tok": b"\r\n"}, {"op": "raw", "cmd": b"delete a", "tok": b"\r\n"},
 ]
 READ_OPS = [c for c in OPS if c["op"] in ("get", "gets", "gat", "gats", "get_many", "gets_many")]
 
